@@ -38,6 +38,8 @@ def _parameter_deepcopy(self: nn.Parameter, memo: Dict[int, Any]) -> nn.Paramete
     result: nn.Parameter = nn.Parameter.__deepcopy__(self, memo)
     result.mup_type = self.mup_type
     result.mup_scaling_depth = self.mup_scaling_depth
+    result.__deepcopy__ = _parameter_deepcopy.__get__(result)
+    result.__reduce_ex__ = _parameter_reduce_ex.__get__(result)
     return result
 
 
